@@ -18,7 +18,7 @@ type c08 struct{}
 func (c08) ID() string    { return "C08" }
 func (c08) Level() string { return "exploration" }
 func (c08) Rule() string {
-	return "shape: in each of the three full corpus documents EVERY scalar leaf in turn is replaced by ${V}, ${UNSET:-literal} and (strings) pre${V}post with the matching environment and the result compared with the literal document; mapping keys containing ${V} stay literal; every document with $ doubled and interpolation on equals the document with interpolation off. types: every typed position of the schema below services/networks/volumes/secrets/configs (boolean, integer, number; read from /repo/schema/compose-spec.json at run time) that admits a string, under three shapes of the user-defined name (plain, x-prefixed, dotted), plus duration and byte-size attributes, x valid texts (incl. YAML-1.1 booleans) x invalid texts: the variable form gives the literal's typed value while the same text at two untyped positions of the document (walked before and after) stays a string, an invalid text is an error naming the attribute. distinct = distinct (position, form) pairs"
+	return "shape: in each of the three full corpus documents EVERY scalar leaf in turn is replaced by ${V}, ${UNSET:-literal} and (strings) pre${V}post with the matching environment and the result compared with the literal document; mapping keys containing ${V} stay literal; every document with $ doubled and interpolation on equals the document with interpolation off, also when the text lives in an override, an extended base, an included or nested-included file, or a second document. types: every typed position of the schema below services/networks/volumes/secrets/configs (boolean, integer, number; read from /repo/schema/compose-spec.json at run time) that admits a string, under three shapes of the user-defined name (plain, x-prefixed, dotted), plus duration and byte-size attributes, x valid texts (incl. YAML-1.1 booleans) x invalid texts: the variable form gives the literal's typed value while the same text at two untyped positions of the document (walked before and after) stays a string, an invalid text is an error naming the attribute. distinct = distinct (position, form) pairs"
 }
 func (c08) Assumptions() []string {
 	return []string{
@@ -194,6 +194,58 @@ func (c08) Run(c *core.Ctx) {
 				return core.Outcome{Class: "diff", Viol: &core.Violation{Key: "doubled-dollar-differs:" + dn2, Msg: fmt.Sprintf("%s: $$-escaped document with interpolation differs from the original without: %s", dn2, trunc(d, 500))}}
 			}
 			return core.Outcome{Class: "dollar/" + dn2}
+		})
+	}
+	// the same equality when the text with $ lives in an override, an extended base (other / same file), an included
+	// file or a nested include: the files the loader opens itself follow the interpolation switch too
+	dollarText := "cost: \"$5 and ${X} and $Y and ${Z:-d}\""
+	multi := map[string]struct {
+		files map[string]string
+		main  []string
+	}{
+		"override": {map[string]string{"compose.yaml": "services:\n  s:\n    image: i\n", "over.yaml": "services:\n  s:\n    labels:\n      " + dollarText + "\n"}, []string{"compose.yaml", "over.yaml"}},
+		"extends-file": {map[string]string{"compose.yaml": "services:\n  s:\n    extends: {file: ./base.yaml, service: b}\n",
+			"base.yaml": "services:\n  b:\n    image: i\n    labels:\n      " + dollarText + "\n"}, []string{"compose.yaml"}},
+		"extends-same-file": {map[string]string{"compose.yaml": "services:\n  b:\n    image: i\n    labels:\n      " + dollarText + "\n  s:\n    extends: {service: b}\n"}, []string{"compose.yaml"}},
+		"include": {map[string]string{"compose.yaml": "include:\n  - ./inc/inc.yaml\nservices:\n  m:\n    image: m\n",
+			"inc/inc.yaml": "services:\n  s:\n    image: i\n    labels:\n      " + dollarText + "\n"}, []string{"compose.yaml"}},
+		"include-nested": {map[string]string{"compose.yaml": "include:\n  - ./inc/inc.yaml\nservices:\n  m:\n    image: m\n",
+			"inc/inc.yaml":       "include:\n  - ./deep/inc2.yaml\nservices:\n  mid:\n    image: i\n",
+			"inc/deep/inc2.yaml": "services:\n  s:\n    image: i\n    labels:\n      " + dollarText + "\n"}, []string{"compose.yaml"}},
+		"second-document": {map[string]string{"compose.yaml": "services:\n  s:\n    image: i\n---\nservices:\n  s:\n    labels:\n      " + dollarText + "\n"}, []string{"compose.yaml"}},
+	}
+	for _, name := range sortedKeys(multi) {
+		name := name
+		c.Do("dollar/multi/"+name, func() core.Outcome {
+			m := multi[name]
+			env := map[string]string{"X": "xval", "Y": "yval"}
+			s0 := &Scn{Files: m.files, Main: m.main, Env: env, Opts: []func(*loader.Options){func(o *loader.Options) { o.SkipInterpolation = true }}}
+			r0 := s0.Materialise()
+			p0, err0 := s0.LoadAt(r0)
+			if err0 != nil {
+				return core.Outcome{Class: "rej", Viol: &core.Violation{Key: "interpolation-off-rejected:" + name, Msg: fmt.Sprintf("%s with interpolation off is rejected: %v", name, err0)}}
+			}
+			doubled := map[string]string{}
+			for f, t := range m.files {
+				doubled[f] = strings.ReplaceAll(t, "$", "$$")
+			}
+			s1 := &Scn{Files: doubled, Main: m.main, Env: env}
+			r1 := s1.Materialise()
+			p1, err1 := s1.LoadAt(r1)
+			if err1 != nil {
+				return core.Outcome{Class: "rej", Viol: &core.Violation{Key: "doubled-dollar-rejected:" + name, Msg: fmt.Sprintf("%s with every $ doubled is rejected: %v", name, err1)}}
+			}
+			want := "$5 and ${X} and $Y and ${Z:-d}"
+			for which, p := range map[string]*types.Project{"interpolation off": p0, "every $ doubled": p1} {
+				if got := p.Services["s"].Labels["cost"]; got != want {
+					return core.Outcome{Class: "diff", Viol: &core.Violation{Key: "dollar-text-changed:" + name,
+						Msg: fmt.Sprintf("%s, %s: the label reads %q, expected the literal text %q", name, which, got, want)}}
+				}
+			}
+			if d := ProjectDiff(relocate(p0), relocate(p1)); d != "" {
+				return core.Outcome{Class: "diff", Viol: &core.Violation{Key: "doubled-dollar-differs:" + name, Msg: fmt.Sprintf("%s: $$-escaped files with interpolation differ from the originals without: %s", name, trunc(d, 500))}}
+			}
+			return core.Outcome{Class: "dollar/multi/" + name}
 		})
 	}
 	// mapping keys are not interpolated
